@@ -14,6 +14,7 @@ use std::sync::Arc;
 
 mod acro;
 mod alloc;
+mod assoc;
 mod casts;
 mod consume;
 mod ext;
@@ -62,6 +63,7 @@ fn main() {
             102 => generic::run(&hdr[1..], &ops, &mut mon),
             107 => consume::run(&hdr[1..], &ops, &mut mon),
             109 => acro::run(&hdr[1..], &ops, &mut mon),
+            111 => assoc::run(&hdr[1..], &ops, &mut mon),
             104 => fwd::run(&hdr[1..], &ops, &mut mon),
             105 => ext::run(&hdr[1..], &ops, &mut mon),
             106 => life::run(&hdr[1..], &ops, &mut mon),
